@@ -407,6 +407,16 @@ func c05Run(c *Ctx) {
 			}
 		}
 	}
+	// 3c''. menu loops: the typed answer compared with text literals (words with letters that Unicode normalisation would
+	// rewrite, typed precomposed and decomposed) decides which arm runs and where the loop is left
+	for _, word := range []string{"\u09ac\u09bf\u09a6\u09be\u09df", "\u09ac\u09bf\u09a6\u09be\u09af\u09bc", "\u09ac\u09dc", "quit", "\u0995\u09c7\u09be", "\u00e9"} {
+		src := pre + Lines(Var("n", "0"), While(True(), "{ "+Var("ans", BI("input"))+" n = n + 1; "+If(`ans == "`+word+`"`, "{ "+Print(`"bye"`)+" "+Break()+" }")+" "+If(`ans == "skip"`, "{ "+Continue()+" }")+" "+IfElse(`ans != "`+word+`x"`, Print(`"again " + ans`), Print(`"odd"`))+" "+If("n > 5", "{ "+Break()+" }")+" }"), Print("n"))
+		for _, typed := range []string{word, "skip\n" + word, "no\nskip\n" + word + "x\n" + word} {
+			if c.Mine() {
+				c05Judge(c, &Case{Gen: "compound-conditions", Src: src, Stdin: typed + "\nextra\nextra\nextra\nextra\nextra\nextra\n"})
+			}
+		}
+	}
 	// 3d. interactive mode: after a line that ended in a stray signal (or any runtime error), later lines with
 	// loops and branches run as in a fresh session
 	for _, bad := range []string{Break(), Continue(), Ret("1"), Print("1 / 0"), If(True(), "{ "+Break()+" }")} {
